@@ -1438,8 +1438,12 @@ func (d *Data) storeAndUpdate(ctx *datastore.VersionedCtx, keyStr string, newDat
 	// updateJSON removes nulled fields from origData, so remember which fields the stored
 	// annotation had for the field counts below.
 	origFields := make([]string, 0, len(origData))
-	for field := range origData {
+	origTimes := make(map[string]string) // root field -> time stamp the stored annotation had
+	for field, value := range origData {
 		origFields = append(origFields, field)
+		if timestamp, isString := value.(string); isString && strings.HasSuffix(field, "_time") {
+			origTimes[field[:len(field)-5]] = timestamp
+		}
 	}
 	updateJSON(origData, newData, ctx.User, conditionals, replace)
 	newJSON, _ := json.Marshal(newData)
@@ -1459,13 +1463,19 @@ func (d *Data) storeAndUpdate(ctx *datastore.VersionedCtx, keyStr string, newDat
 				delete(mdb.fields, field)
 			}
 		}
+		// a field's time is the newest stamp among all annotations, as computed on load
 		for field := range newData {
 			mdb.fields[field]++
 			if strings.HasSuffix(field, "_time") {
 				rootField := field[:len(field)-5]
-				if timestamp, isString := newData[field].(string); isString {
+				if timestamp, isString := newData[field].(string); isString && timestamp > mdb.fieldTimes[rootField] {
 					mdb.fieldTimes[rootField] = timestamp
 				}
+			}
+		}
+		for rootField, origTime := range origTimes {
+			if newTime, _ := newData[rootField+"_time"].(string); newTime < origTime && origTime == mdb.fieldTimes[rootField] {
+				mdb.recomputeFieldTime(rootField) // this annotation held the newest stamp and no longer does
 			}
 		}
 		mdb.addBodyID(bodyid)
@@ -1590,9 +1600,9 @@ func (d *Data) DeleteData(ctx storage.VersionedCtx, keyStr string) error {
 	mdb, found := d.getMemDBbyVersion(ctx.VersionID())
 	if found {
 		mdb.mu.Lock()
-		_, found := mdb.data[bodyid]
+		deleted, found := mdb.data[bodyid]
 		if found {
-			for field := range mdb.data[bodyid] {
+			for field := range deleted {
 				mdb.fields[field]--
 				if mdb.fields[field] <= 0 {
 					delete(mdb.fields, field)
@@ -1600,6 +1610,13 @@ func (d *Data) DeleteData(ctx storage.VersionedCtx, keyStr string) error {
 			}
 			delete(mdb.data, bodyid)
 			mdb.deleteBodyID(bodyid)
+			for field, value := range deleted {
+				if timestamp, isString := value.(string); isString && strings.HasSuffix(field, "_time") {
+					if rootField := field[:len(field)-5]; timestamp == mdb.fieldTimes[rootField] {
+						mdb.recomputeFieldTime(rootField) // the deleted annotation held the newest stamp
+					}
+				}
+			}
 		}
 		mdb.mu.Unlock()
 	}
